@@ -177,6 +177,7 @@ type Env struct {
 	RF      *genesis.ImmutableRuleFactory
 	MM      metadata.MetadataManager
 	BH      *balance.PrefixBalanceHandler
+	BHx     chain.BalanceHandler // the balance handler handed to the real code (defaults to BH)
 	DB      merkledb.MerkleDB
 	Parent  *chain.ExecutionBlock
 	Index   *validitywindowtest.MockChainIndex[*chain.Transaction]
@@ -253,7 +254,14 @@ func (e *Env) Processor(ctx context.Context, w workers.Workers, cfg chain.Config
 	if err != nil {
 		return nil, err
 	}
-	return chain.NewProcessor(trace.Noop, logging.NoLog{}, e.RF, w, auth.DefaultEngines(), e.MM, e.BH, vw, metrics, cfg), nil
+	return chain.NewProcessor(trace.Noop, logging.NoLog{}, e.RF, w, auth.DefaultEngines(), e.MM, e.handler(), vw, metrics, cfg), nil
+}
+
+func (e *Env) handler() chain.BalanceHandler {
+	if e.BHx != nil {
+		return e.BHx
+	}
+	return e.BH
 }
 
 // ParentRoot returns the merkle root of the parent state.
